@@ -234,6 +234,26 @@ def gen_description(rng, force=None, hostile=True):
                 used.discard(v["id"])
                 v["id"], v["uid"] = a + b, a + "-" + b
                 used.add(v["id"])
+    if force == "dashed-top-with-children" or (force is None and variants and rng.random() < 0.06):
+        # the same, on a top-level variant that HAS children: every descendant UID carries the dashed prefix
+        cands = [v for v in variants if v["children"] and "-" not in v["uid"]]
+        if not cands and force == "dashed-top-with-children":
+            top = gen_variant(rng, None, used, 3, [1], hostile=hostile)
+            top["children"].append(gen_variant(rng, top, set(), 3, [1], hostile=hostile))
+            variants.append(top)
+            cands = [top]
+        if cands:
+            v = rng.choice(cands)
+            a, b = rng.choice(["Server", "Work", "Q", "Layer1"]), rng.choice(["Tools", "Extras", "Z", "9"])
+            all_uids = set(n["uid"] for n in iter_nodes(variants))
+            if (a + b) not in used and (a + "-" + b) not in all_uids and a not in all_uids and \
+                    not any(u.startswith(a + "-" + b + "-") for u in all_uids):
+                used.discard(v["id"])
+                old = v["uid"]
+                v["id"], v["uid"] = a + b, a + "-" + b
+                used.add(v["id"])
+                for n in iter_nodes(v["children"]):
+                    n["uid"] = v["uid"] + n["uid"][len(old):]
     if force == "dashed-top-prefix-of-sibling" or (variants and rng.random() < 0.08):
         # an INDEPENDENT top-level variant whose UID is <another top-level UID>-<something> (id without the dash), e.g.
         # 'Foo' next to 'Foo-Bar' (id 'FooBar'): only the explicit child lists tell it apart from a child of 'Foo'
@@ -295,6 +315,8 @@ def classes_of(D):
         out.append("final-without-label")
     if comp["id"] == "<create>":
         out.append("id-created")
+    if any("-" in v["uid"] and v["children"] for v in D["variants"]):
+        out.append("dashed-top-with-children")
     nodes = list(iter_nodes(D["variants"]))
     if len(D["variants"]) >= 10 or any(len(n["children"]) >= 10 for n in nodes):
         out.append("many-variants")
